@@ -66,7 +66,8 @@ def check_src(run: common.Run, src: str, binds: Dict[str, Any], case: dict, repo
         ci, cc = both(ir.render(cul), binds)
         m = mode_of(ci, cc)
         tag = ""
-        if localize.has_operand(cul) or localize.python_bool_from_has(cul, lambda sub: cel.evaluate(ir.render(sub), binds, "C")):
+        if (localize.has_operand(cul) or localize.python_bool_from_has(cul, lambda sub: cel.evaluate(ir.render(sub), binds, "C"))
+                or localize.has_bool_is_root_cause(cul, lambda w: len(set(both(ir.render(w), binds))) == 1)):
             tag = "-has-operand"
         elif m == "I-error-C-value" and cul[0] in ("list", "map", "call", "method", "macro", "index", "select") and any(
             cel.evaluate(ir.render(ch), binds, "I")[0] == "error" for ch in localize.closed_children(cul)
